@@ -130,7 +130,7 @@ theorem sim_step (hP : wfProg md P) (ih : SimAt md P n) : SimAt md P (n + 1) := 
       · cases h2
     | call f arity args =>
       have hw : wfL md args = true ∧ (if args.length < arity then
-          (if md = true then paOK (restNames (arity - args.length)) args
+          (if md = true then true
            else isPureForL (restNames (arity - args.length)) args) else true) = true := by
         simpa [wfE] using hwf
       simp only [stepExpr] at h
@@ -151,12 +151,10 @@ theorem sim_step (hP : wfProg md P) (ih : SimAt md P n) : SimAt md P (n + 1) := 
           · simp only [lowerE, hlt', if_true, List.append_nil]
             exact g_funcLit _ 0 genv _ _
           · rw [← hlen] at hall ⊢
-            exact VRel.pap hlt hga hrv hall
+            exact VRel.pap hlt hga hrv (isGAtomL_of_pure hall)
         | true =>
           -- fc: the arguments that are not inert are evaluated first, into `_p…` bindings
-          have hok : paOK (restNames (arity - args.length)) args = true := by simpa [hlt'] using hw.2
-          obtain ⟨m, X, gvs, _, hrun, hat, hrel, hgp⟩ := sim_paArgs ih (restNames (arity - args.length))
-            (fun i => pName_not_rest i _) args 0 h1 hw.1 hok he
+          obtain ⟨m, X, gvs, _, hrun, hat, hrel, hgp⟩ := sim_paArgs ih (arity - args.length) args 0 h1 hw.1 he
           have heX := ERel.extras he X 0 ‹_›
           refine ⟨m + 4, .clo (restNames (arity - args.length))
             (.mk [] (.ret (.callFn f ((paArgs 0 args (lowerL true args)).1 ++ (restNames (arity - args.length)).map GExpr.var))))
@@ -336,7 +334,8 @@ theorem sim_step (hP : wfProg md P) (ih : SimAt md P n) : SimAt md P (n + 1) := 
     | pap hlt hga hvs hall =>
       rename_i fn arity vs ges gvs genv k
       simp only [stepApp] at h
-      obtain ⟨d, hfind, hpl, m, gv, hg, hr⟩ := sim_applyFull hP ih h (VRels.append hvs hargs)
+      obtain ⟨gvs', hatoms, hvs'⟩ := geval_atoms (lowerProg md P) (arity - vs.length) gargs genv k ges hvs hga hall
+      obtain ⟨d, hfind, hpl, m, gv, hg, hr⟩ := sim_applyFull hP ih h (VRels.append hvs' hargs)
       -- the number of actual arguments is the number of closure parameters
       have hargsLen : (restNames (arity - vs.length)).length = gargs.length := by
         unfold applyFull at h
@@ -348,8 +347,7 @@ theorem sim_step (hP : wfProg md P) (ih : SimAt md P n) : SimAt md P (n + 1) := 
       refine ⟨m + k + 4, gv, ?_, hr⟩
       apply g_app_clo _ hargsLen
       have hargsEval := evalList_append
-        (g_lift_list (lowerProg md P) (show k ≤ m + k + 1 by omega)
-          (geval_pures (lowerProg md P) (restNames (arity - vs.length)) gargs genv k ges gvs hga hall))
+        (g_lift_list (lowerProg md P) (show k + 1 ≤ m + k + 1 by omega) hatoms)
         (evalList_rest_vars (lowerProg md P) (m + k) (restNames (arity - vs.length)) gargs genv (restNames_nodup _) hargsLen)
       have hcall := g_callFn (lowerProg md P) hargsEval (find_lower hfind) hpl (g_lift_body _ (show m ≤ m + k + 1 by omega) hg)
       have hb := g_body_ret (lowerProg md P) (grunStmts_nil _ _) hcall
@@ -378,6 +376,7 @@ theorem lower_correct (P : Prog) (hP : wfProg md P) (entry : String) (n : Nat) (
     unfold grunProg
     have := g_callFn (lowerProg md P) (genv := []) (f := entry) (ges := []) (t1 := []) (gvs := []) rfl (find_lower hfind) hpl hg
     simpa using this
+
 
 end Folang.Sem
 
@@ -506,5 +505,53 @@ theorem exampleD9_lowered :
       · cases h2
     intro m tr' gv' hg
     rw [(lower_correct_output exampleD9 exampleD9_wf "main" 20 tr v h).2 m tr' gv' hg, htr]
+
+/-! nested partial applications and a lambda as given arguments (the inert rule of the emitter):
+
+    let apply f x = f x
+    let main () =
+      let g = apply (add (say "arg" 1))     -- the inner partial application is NOT inert: bound once
+      let h = apply (add 5)                 -- inert: stays inside the closure, rebuilt at every call
+      let k = apply (fun y -> y + 1)        -- a lambda is inert
+      (g 10) + (g 20) + (h 1) + (k 1)
+-/
+def exampleNested : Prog := [
+  { name := "add", params := ["a", "b"], body := .mk [] (.ret (.prim (.arith "+") [.var "a", .var "b"])) },
+  { name := "say", params := ["tag", "v"], body := .mk [.exec (.prim .println [.var "tag"])] (.ret (.var "v")) },
+  { name := "apply", params := ["f", "x"], body := .mk [] (.ret (.callv (.var "f") [.var "x"])) },
+  { name := "main", params := [], body := .mk
+      [ .let1 "g" (.call "apply" 2 [.call "add" 2 [.call "say" 2 [.lit (.str "arg"), .lit (.int 1)]]]),
+        .let1 "h" (.call "apply" 2 [.call "add" 2 [.lit (.int 5)]]),
+        .let1 "k" (.call "apply" 2 [.lam ["y"] (.mk [] (.ret (.prim (.arith "+") [.var "y", .lit (.int 1)])))]) ]
+      (.ret (.prim (.arith "+") [.prim (.arith "+") [.prim (.arith "+")
+        [.callv (.var "g") [.lit (.int 10)], .callv (.var "g") [.lit (.int 20)]], .callv (.var "h") [.lit (.int 1)]],
+        .callv (.var "k") [.lit (.int 1)]])) } ]
+
+theorem exampleNested_wf : wfProg true exampleNested := by
+  intro d hd
+  simp only [exampleNested, List.mem_cons, List.not_mem_nil, or_false] at hd
+  rcases hd with rfl | rfl | rfl | rfl <;> decide
+
+/-- "arg" is printed once although g is called twice: 11 + 21 + 6 + 2 -/
+theorem exampleNested_runs : intResult (runProg exampleNested "main" 30) = some (["arg\n"], 40) := by decide
+
+/-- the lowering keeps the inert inner partial application and the lambda inside the closures and binds
+the other one: what `fcPartialApplyGo` emits -/
+theorem exampleNested_lowering :
+    ((lowerProg true exampleNested).find? (fun d => d.name == "main")).map (fun d => d.body) =
+    some (.mk
+      [ .define "g" (.callVal (.funcLit [] (.mk
+          [ .define "_p0" (.callVal (.funcLit [] (.mk
+              [ .define "_p0" (.callFn "say" [.lit (.str "arg"), .lit (.int 1)]) ]
+              (.ret (.funcLit ["_r0"] (.mk [] (.ret (.callFn "add" [.var "_p0", .var "_r0"]))))))) []) ]
+          (.ret (.funcLit ["_r0"] (.mk [] (.ret (.callFn "apply" [.var "_p0", .var "_r0"]))))))) []),
+        .define "h" (.funcLit ["_r0"] (.mk [] (.ret (.callFn "apply"
+          [.funcLit ["_r0"] (.mk [] (.ret (.callFn "add" [.lit (.int 5), .var "_r0"]))), .var "_r0"])))),
+        .define "k" (.funcLit ["_r0"] (.mk [] (.ret (.callFn "apply"
+          [.funcLit ["y"] (.mk [] (.ret (.prim (.arith "+") [.var "y", .lit (.int 1)]))), .var "_r0"])))) ]
+      (.ret (.prim (.arith "+") [.prim (.arith "+") [.prim (.arith "+")
+        [.callVal (.var "g") [.lit (.int 10)], .callVal (.var "g") [.lit (.int 20)]], .callVal (.var "h") [.lit (.int 1)]],
+        .callVal (.var "k") [.lit (.int 1)]]))) := by rfl
+
 
 end Folang.Sem
